@@ -762,14 +762,15 @@ func writeEvidence(id, mode string, seed uint64, results []*phaseResult, nviol i
 	cov["phases"] = phasesOut
 	cov["real_vs_stub"] = map[string]string{
 		"real":          "all of flamego (router, tree matcher, context/chain, injector, ResponseWriter wrapper, Recovery, Logger, Renderer, Static), net/http's ServeContent/Redirect/Error helpers, http.Dir containment, charmbracelet/log",
-		"stub":          "the underlying http.ResponseWriter (SpyWriter), the *http.Request (struct literal) and its cancelable context, handlers/BeforeFuncs/callbacks (simulated programs), the http.FileSystem (FaultFS over a real directory or MapFS), the log sink",
-		"not_simulated": "Flame.Run/Stop, net/http server, HTTP parsing, sockets, TLS",
+		"stub":          "the underlying http.ResponseWriter (SpyWriter), the *http.Request (struct literal) and its cancelable context, handlers/BeforeFuncs/callbacks (simulated programs), the http.FileSystem (FaultFS over a real directory or MapFS), the log sink; package time as flamego's sources see it in the instrumented builds (virtual clock: Now/Since/Until/Sleep/After/AfterFunc; timer callbacks are scheduled tasks)",
+		"not_simulated": "Flame.Run/Stop, net/http server, HTTP parsing, sockets, TLS; time.NewTimer/Ticker and context.WithTimeout inside flamego (none on the pinned tree) and every clock read in the plain builds stay on the wall clock",
 	}
 	ev := map[string]any{
 		"property_id": id, "tier": mode, "seed": seed, "level": "exploration", "coverage": cov, "wall_s": wall, "violations": nviol,
 		"assumptions": []string{
 			"sampling, not proof: seeded search over schedules, workloads and fault plans",
-			"interleavings are explored at yield points only (every simulator-owned seam plus six in-framework hook sites); code between two yields runs atomically",
+			"interleavings are explored at yield points only (every simulator-owned seam plus six in-framework hook sites; in the instrumented phases also before every statement and after every nested call of flamego's sources); code between two yields runs atomically",
+			"virtual time: one scheduler step is 1-4 ticks, sleeping tasks make the clock jump, one tick stands for 0.1-100 ms (drawn per run); virtual_ticks is the sum over all runs",
 			"Go map iteration order inside flamego is not seedable; workloads avoid the shapes where it is observable",
 			"the race detector sees real synchronisation inside reflect/regexp/log (sync.Pool, mutexes) and may miss a race in a given schedule because of it",
 		},
